@@ -1,6 +1,7 @@
 import TLVerif.Codec.Val
 /-! The value of a freshly created / `Reset` generated object. -/
-namespace TLVerif.Codec
+namespace TLVerif.Codec.Z
+open TLVerif.Codec
 
 def zeroPrim : PrimK → Val
   | .str => .str []
@@ -39,4 +40,4 @@ def zeroVal (d : Desc) : Nat → Nat → Option Val
       else some (.arr [])
     | some (.dict _) => some (.arr [])
 
-end TLVerif.Codec
+end TLVerif.Codec.Z
